@@ -3,85 +3,50 @@ package main
 import (
 	"fmt"
 	"testing"
-	"time"
+	"strings"
+	"math/big"
 
-	"github.com/cosmos/cosmos-sdk/simapp/helpers"
 	sdk "github.com/cosmos/cosmos-sdk/types"
-	"github.com/tharsis/ethermint/crypto/ethsecp256k1"
-
-	xibcclient "github.com/teleport-network/teleport/x/xibc/core/client"
-	clienttypes "github.com/teleport-network/teleport/x/xibc/core/client/types"
-	tsstypes "github.com/teleport-network/teleport/x/xibc/clients/tss-client/types"
+	"github.com/ethereum/go-ethereum/common"
+	ethtypes "github.com/ethereum/go-ethereum/core/types"
+	"github.com/tharsis/ethermint/server/config"
+	"github.com/tharsis/ethermint/tests"
+	evmtypes "github.com/tharsis/ethermint/x/evm/types"
+	endpointcontract "github.com/teleport-network/teleport/syscontracts/xibc_endpoint"
+	packetcontract "github.com/teleport-network/teleport/syscontracts/xibc_packet"
+	packettypes "github.com/teleport-network/teleport/x/xibc/core/packet/types"
 	xibctesting "github.com/teleport-network/teleport/x/xibc/testing"
 )
 
-type acct struct {
-	priv *ethsecp256k1.PrivKey
-	addr sdk.AccAddress
-}
-
-func deliver(ch *xibctesting.TestChain, a *acct, msgs ...sdk.Msg) (*sdk.Result, error) {
-	ctx := ch.GetContext()
-	acc := ch.App.AccountKeeper.GetAccount(ctx, a.addr)
-	tx, err := helpers.GenTx(ch.TxConfig, msgs, sdk.Coins{sdk.NewInt64Coin(sdk.DefaultBondDenom, 0)}, helpers.DefaultGenTxGas*2,
-		ch.ChainID, []uint64{acc.GetAccountNumber()}, []uint64{acc.GetSequence()}, a.priv)
-	if err != nil {
-		panic(err)
-	}
-	_, res, err := ch.App.BaseApp.Deliver(ch.TxConfig.TxEncoder(), tx)
-	return res, err
-}
-
 func main() {
-	t0 := time.Now()
 	coord := xibctesting.NewCoordinator(&testing.T{}, 2)
 	A := coord.GetChain(xibctesting.GetChainID(0))
 	B := coord.GetChain(xibctesting.GetChainID(1))
-	fmt.Println("setup", time.Since(t0))
 	path := xibctesting.NewPath(A, B)
 	coord.SetupClientsWithoutRelayer(path)
-	fmt.Println("clients", time.Since(t0))
-	var accts []*acct
-	for i := 0; i < 4; i++ {
-		k := make([]byte, 32)
-		k[31] = byte(i + 1)
-		k[0] = 7
-		p := &ethsecp256k1.PrivKey{Key: k}
-		a := &acct{priv: p, addr: sdk.AccAddress(p.PubKey().Address().Bytes())}
-		accts = append(accts, a)
-		if err := A.App.BankKeeper.SendCoins(A.GetContext(), A.SenderAcc, a.addr, sdk.NewCoins(sdk.NewInt64Coin("stake", 1000000))); err != nil {
-			panic(err)
-		}
-		fmt.Println(a.addr.String())
+	data := packettypes.CrossChainData{
+		DstChain:        B.ChainID,
+		TokenAddress:    common.Address{},
+		Receiver:        strings.ToLower(A.SenderAddress.String()),
+		Amount:          big.NewInt(100),
+		CallData:        []byte(""),
 	}
-	h := xibcclient.NewClientProposalHandler(A.App.XIBCKeeper.ClientKeeper)
-	p := clienttypes.NewRegisterRelayerProposal("t", "d", accts[0].addr.String(), []string{B.ChainID}, []string{"0xabc"})
-	fmt.Println("vb", p.ValidateBasic(), "handler", h(A.GetContext(), p))
-	// TSS client
-	cs := &tsstypes.ClientState{TssAddress: accts[1].addr.String()}
-	cp, err := clienttypes.NewCreateClientProposal("t", "d", "tss-chain", cs, &tsstypes.ConsensusState{})
-	fmt.Println("cp", err)
-	fmt.Println("vb", cp.ValidateBasic(), "handler", h(A.GetContext(), cp))
-	coord.CommitBlock(A, B)
-	coord.CommitBlock(B)
-	hdr, err := A.ConstructUpdateTMClientHeader(B, B.ChainID)
-	fmt.Println("hdr", err)
-	t1 := time.Now()
-	for i, a := range accts {
-		msg, _ := clienttypes.NewMsgUpdateClient(B.ChainID, hdr, a.addr)
-		res, err := deliver(A, a, msg)
-		fmt.Println(i, res != nil, err)
-	}
-	for i, a := range accts[:1] {
-		msg, _ := clienttypes.NewMsgUpdateClient(B.ChainID, hdr, a.addr)
-		res, err := deliver(A, a, msg)
-		fmt.Println(i, res != nil, err)
-	}
-	fmt.Println("5 delivers", time.Since(t1))
-	thdr := &tsstypes.Header{TssAddress: accts[2].addr.String()}
-	for i, a := range accts {
-		msg, _ := clienttypes.NewMsgUpdateClient("tss-chain", thdr, a.addr)
-		res, err := deliver(A, a, msg)
-		fmt.Println(i, res != nil, err)
-	}
+	f := packettypes.Fee{Amount: big.NewInt(7)}
+	payload, err := endpointcontract.EndpointContract.ABI.Pack("crossChainCall", data, f)
+	fmt.Println(err)
+	ctx := A.GetContext()
+	chainID := A.App.EvmKeeper.ChainID()
+	nonce := A.App.EvmKeeper.GetNonce(ctx, A.SenderAddress)
+	tx := evmtypes.NewTx(chainID, nonce, &endpointcontract.EndpointContractAddress, big.NewInt(107), config.DefaultGasCap, big.NewInt(0), big.NewInt(0), big.NewInt(0), payload, &ethtypes.AccessList{})
+	tx.From = A.SenderAddress.Hex()
+	fmt.Println(tx.Sign(ethtypes.LatestSignerForChainID(chainID), tests.NewSigner(A.SenderPrivKey)))
+	rsp, err := A.App.EvmKeeper.EthereumTx(sdk.WrapSDKContext(ctx), tx)
+	fmt.Println(err, rsp.VmError, len(rsp.Logs), rsp.Ret)
+	fmt.Println(A.App.XIBCKeeper.PacketKeeper.GetNextSequenceSend(A.GetContext(), A.ChainID, B.ChainID))
+	res, err := A.App.XIBCKeeper.PacketKeeper.CallEVM(A.GetContext(), packetcontract.PacketContract.ABI, packettypes.ModuleAddress, packetcontract.PacketContractAddress, "latestPacket")
+	fmt.Println(err, len(res.Ret))
+	var p packettypes.Packet
+	fmt.Println(packetcontract.PacketContract.ABI.UnpackIntoInterface(&p, "latestPacket", res.Ret))
+	fmt.Printf("%+v\n", p)
+	for _, o := range packetcontract.PacketContract.ABI.Methods["latestPacket"].Outputs { fmt.Println(o.Name) }
 }
